@@ -18,20 +18,11 @@ TraceRewind == IsEvent("Rewind") /\ Rewind
 
 TraceMarshal ==
     /\ IsEvent("Marshal")
-    /\ LET ver == IF Ev.hasver THEN Ev.ver ELSE DefaultVer
-           c  == Ev.wcalls
-           k1 == c[1].k  e1 == c[1].e
-           k2 == IF Len(c) >= 2 THEN c[2].k ELSE 0
-           e2 == IF Len(c) >= 2 THEN c[2].e ELSE FALSE
-           r  == MarshalResult(ver, Ev.enc, k1, e1, k2, e2)
-       IN /\ ValidVer(ver)
-          /\ Len(c) = (IF e1 THEN 1 ELSE 2)                         \* header write, then body write
-          /\ c[1].offered = H /\ k1 <= H /\ (~e1 => k1 = H)
-          /\ (~e1 => c[2].offered = Len(Ev.enc) /\ k2 <= Len(Ev.enc) /\ (~e2 => k2 = Len(Ev.enc)))
-          /\ Ev.n = r.n /\ Ev.err = r.err
-          /\ Ev.written = r.out                                      \* exactly the first n bytes of the frame
-          /\ Ev.size = H + Len(Ev.enc) /\ Ev.hsize = H               \* Size(msg), HeaderSize(msg)
-          /\ Marshal(ver, Ev.enc, Ev.kind, k1, e1, k2, e2)
+    /\ LET ver == IF Ev.hasver THEN Ev.ver ELSE DefaultVer IN
+       /\ ValidVer(ver)
+       /\ MarshalAnyOK(ver, Ev.enc, Ev.wcalls, [n |-> Ev.n, err |-> Ev.err, written |-> Ev.written])
+       /\ Ev.size = H + Len(Ev.enc) /\ Ev.hsize = H               \* Size(msg), HeaderSize(msg)
+       /\ MarshalAny(ver, Ev.enc, Ev.kind, Ev.wcalls)
 
 Avail == IF Ev.avail < 0 THEN Inf ELSE Ev.avail
 
